@@ -56,12 +56,15 @@ class EncoderModel:
         return b'\x00'
 
 
-def _witness(client):
+def _witness(client, reserve=False):
     ctx = ops.Ctx(client)
     if client:
         ops.run_op(ctx, ('send_headers', 1, 'req', False))
     else:
         ops.run_op(ctx, ('HEADERS', 1, 'req', False))
+        if reserve:
+            # a promised stream that is not open yet follows the settings as well
+            ops.run_op(ctx, ('push', 1, 2))
     ctx.me.data_to_send()
     return ctx
 
@@ -81,7 +84,7 @@ def h_receive(client, ids, two_frames):
     """one (or two) received SETTINGS frames with symbolic values"""
     def h():
         with h2h.native():
-            ctx = _witness(client)
+            ctx = _witness(client, reserve=True)
         me = ctx.me
         enc = EncoderModel()
         me.encoder = enc
@@ -139,8 +142,14 @@ def h_receive(client, ids, two_frames):
                 check(s_eq(enc.header_table_size, v), 'encoder-table-size-stale', None)
             if k == K.INITIAL_WINDOW_SIZE:
                 check(s_eq(me.streams[1].outbound_flow_control_window,
-                           65535 + (v - before[k])) if not two_frames or len(ids) == 1 or True
-                      else True, 'stream-window-not-moved', None)
+                           65535 + (v - before[k])), 'stream-window-not-moved', None)
+                if 2 in me.streams:
+                    check(s_eq(me.streams[2].outbound_flow_control_window,
+                               65535 + (v - before[k])), 'reserved-stream-window-not-moved',
+                          None)
+                    check(s_eq(me.streams[2].max_outbound_frame_size,
+                               me.max_outbound_frame_size),
+                          'reserved-stream-max-outbound-frame-size-stale', None)
     return h
 
 
